@@ -173,6 +173,14 @@ struct smoothed_aggr_emin {
     }
 
     private:
+        // The diagonal of the filtered matrix vanishes for a row with zero sum
+        // whose off-diagonal connections are all weak. Such a row takes no part
+        // in the smoothing (smoothed_aggregation guards the same situation).
+        template <typename Val>
+        static Val inverse_or_zero(const Val &d) {
+            return math::is_zero(d) ? math::zero<Val>() : math::inverse(d);
+        }
+
         template <class AMatrix, typename Val, typename Col, typename Ptr>
         static std::shared_ptr< backend::crs<Val, Col, Ptr> >
         interpolation(
@@ -207,7 +215,7 @@ struct smoothed_aggr_emin {
                     // Form current row of ADAP matrix.
                     for(auto a = A.row_begin(ia); a; ++a) {
                         Col ca  = a.col();
-                        Val va  = math::inverse(Adia[ca]) * a.value();
+                        Val va  = inverse_or_zero(Adia[ca]) * a.value();
 
                         for(auto p = AP->row_begin(ca); p; ++p) {
                             Col c = p.col();
@@ -279,7 +287,7 @@ struct smoothed_aggr_emin {
              */
 #pragma omp parallel for
             for(ptrdiff_t i = 0; i < static_cast<ptrdiff_t>(n); ++i) {
-                Val dia = math::inverse(Adia[i]);
+                Val dia = inverse_or_zero(Adia[i]);
 
                 for(Ptr ja = AP->ptr[i],    ea = AP->ptr[i+1],
                         jp = P_tent.ptr[i], ep = P_tent.ptr[i+1];
@@ -339,7 +347,7 @@ struct smoothed_aggr_emin {
                    )
                 {
                     Col ca = RA->col[ja];
-                    Val va = -w * math::inverse(Adia[ca]) * RA->val[ja];
+                    Val va = -w * inverse_or_zero(Adia[ca]) * RA->val[ja];
 
                     for(; jr < er; ++jr) {
                         Col cr = R_tent->col[jr];
